@@ -55,6 +55,13 @@ class Checked(np.ndarray):
                     raise OutOfBounds(f"index {int(k)} >= size {self.shape[ax]} on axis {ax} of array with shape {self.shape} (subscript {tup})")
         return super().__getitem__(idx)
 
+    def __setitem__(self, idx, val):
+        tup = idx if isinstance(idx, tuple) else (idx,)
+        for ax, k in enumerate(tup):
+            if isinstance(k, (int, np.integer)) and not 0 <= k < self.shape[ax]:
+                raise OutOfBounds(f"write at index {int(k)} on axis {ax} of array with shape {self.shape} (subscript {tup})")
+        return super().__setitem__(idx, val)
+
 
 _ORIG = {}
 
@@ -69,11 +76,13 @@ def install(mode):
     else:
         tri, zk = _ORIG["trilinear"].py_func, _ORIG["z2s_kernel"].py_func
 
-        def trilinear(F, X, Y, K, A):
-            return tri(np.asarray(F).view(Checked), np.asarray(X).view(Checked), np.asarray(Y).view(Checked), np.asarray(K).view(Checked), np.asarray(A).view(Checked))
+        chk = lambda a: a.view(Checked) if isinstance(a, np.ndarray) else a  # noqa: E731  (whatever the kernels' signatures are)
 
-        def z2s_kernel(I, J, Z, z_rho):
-            return zk(np.asarray(I).view(Checked), np.asarray(J).view(Checked), np.asarray(Z).view(Checked), np.asarray(z_rho).view(Checked))
+        def trilinear(*args, **kw):
+            return tri(*[chk(a) for a in args], **{k: chk(v) for k, v in kw.items()})
+
+        def z2s_kernel(*args, **kw):
+            return zk(*[chk(a) for a in args], **{k: chk(v) for k, v in kw.items()})
 
         R.trilinear, R.z2s_kernel = trilinear, z2s_kernel
 
@@ -90,6 +99,9 @@ def cases(tier, seed):
         if kick == "big" and (sp != 0.9 or vert != "off"):
             continue
         out.append(dict(mode="run", dir=di, speed=sp, scheme=sch, subgrid=sg, vertical=vert, kick=kick))
+    # beyond the lattice: thousands of particles released in one step (work arrays that grow, chunked loops)
+    for sch in b["schemes"]:
+        out.append(dict(mode="run", dir=4, speed=0.5, scheme=sch, subgrid=None, vertical="advection+diffusion", kick="none", crowd=2600))
     for shape in ([2, 4, 5], [3, 6, 4], [5, 3, 3]) if tier == "quick" else ([2, 4, 5], [3, 6, 4], [5, 3, 3], [1, 4, 4], [8, 9, 7]):
         for mode in ("jit", "proxy"):
             out.append(dict(mode="kernel", shape=shape, pass_=mode))
@@ -139,6 +151,8 @@ def run_scenario(case, mode):
         h = float(W.h[jc, ic])
         for z in (0.0, h / 2, h, h + 30.0):
             rows.append(dict(release_time=world.iso(S0), X=x, Y=y, Z=z))
+    if case.get("crowd"):  # a first small release, then a crowd in the next step: the particle count grows 100-fold at once
+        rows = rows[:24] + [dict(release_time=world.iso(S0 + DT), X=x, Y=y, Z=5.0 + (k % 7)) for k, (x, y) in enumerate(itertools.islice(itertools.cycle(seeds(lim)), case["crowd"]))]
     tracker = dict(advection=case["scheme"])
     state = dict(instance_variables=dict(temp="float", w="float"), default_values=dict(temp=0.0, w=0.0))
     if case["vertical"] != "off":
